@@ -2,6 +2,7 @@
   C20 — silent peers are dropped, live ones are kept and kept alive.
 -/
 import RdestModel.Lemmas.Trace
+import RdestModel.Lemmas.Loop
 set_option linter.unusedSimpArgs false
 set_option linter.unusedVariables false
 namespace Rdest.Props.C20
@@ -119,6 +120,23 @@ theorem T1_closed_within_three_intervals (silent : Nat) (hs : silent ≤ KEEP_AL
     arriving with `silent < limit` never closes, and after any real message `silent` is 0 (with `1 ≤ limit`). -/
 theorem T2_live_connection_kept (limit : Nat) (h1 : 1 ≤ limit) : (kaRun limit 0 1).2.2 = true := by
   rw [T3_tick_writes_one_keepalive limit 0 1 (by omega)]
+
+/-! ### "…and its peer state and reservation are released" (closed loop, `Swarm/Loop.lean`) -/
+
+/-- **T4 (C20, task and manager together).** When the connection task ends — for a silent peer: at the closing tick of
+    T1 — the manager's handling of its `KillReq` leaves no record of that connection (`kill_peer`; C12's `kill` case: the
+    piece it was assigned is `Missing` again unless owned). -/
+theorem T4_closed_connection_is_forgotten (T : Rdest.Swarm.Loop.Torrent) (sha1 : Bytes → Bytes) (disk : Bytes → Option Bytes)
+    (a : Nat) (m m' : MState) (t t' : HState) (inp : HIn) (outs : List HOut) (hal : t.alive = true)
+    (hs : Rdest.Swarm.Loop.LStepO T sha1 disk a m t inp m' t' outs) (hdead : t'.alive = false) : findPeer m' a = none :=
+  Rdest.Swarm.Loop.ended_is_forgotten T sha1 disk a m m' t t' inp outs hal hs hdead
+
+/-- The closing tick is such an ending step: a task at the keep-alive limit ends on the next tick. -/
+theorem T4_closing_tick_ends_the_task (sha1 : Bytes → Bytes) (disk : Bytes → Option Bytes) (t : HState)
+    (hal : t.alive = true) (hlim : t.keepAlive = KEEP_ALIVE_LIMIT) :
+    ∃ t', hstep sha1 disk t .tick = some (t', [], some false) ∧ t'.alive = false := by
+  refine ⟨{ t with alive := false }, ?_, rfl⟩
+  simp [hstep, hal, hlim, terminate]
 
 /-! ### Non-vacuity (tests) -/
 
